@@ -151,7 +151,8 @@ def check_refs(case, agg):
     two = case["two_members"]
     src_texts = ['~ id: src ~ $[1*][ @total = add(#0, 0) @last_c = #2 @by.k = #1 push("seen", #0) #1 ]']
     if two:
-        src_texts.append('~ id: other ~ $[1*][ @other_v = #0 yes() ]')
+        # the second member looks at its own group's variables while the group is still running
+        src_texts.append('~ id: other ~ $[1*][ @other_v = #0 @peek = $src.variables.total @late = line_number() yes() ]')
     cs.paths_manager.add_named_paths(name="src", paths=src_texts)
     use = '~ id: use ~ $[1*][ @t = $src.variables.total @lc = $src.variables.last_c @k = $src.variables.by.k @st = $src.variables.seen ' + ("@hv = $src.headers.b.src " if two else "@hv = $src.headers.b ") + "]"
     cs.paths_manager.add_named_paths(name="user", paths=[use])
@@ -172,6 +173,34 @@ def check_refs(case, agg):
         last = {"vars": dict(res.csvpath.variables), "rows": rows, "collected": [ln for ln in rows[1:] if ln[1].strip() != ""]}
         w["runs"].append(rows)
     cps.add_file(cs, "ufile", [["a"], ["1"], ["2"]], srcname="ufile.csv")
+    # ---- read through a csvpath of the same instance and through the results manager, before any other run starts
+    allres = cs.results_manager.get_named_results("src")
+    final = {}
+    for r_ in reversed(allres):
+        final.update(r_.csvpath.variables)
+    direct = cs.csvpath()
+    names = ["total", "last_c"] + (["late", "other_v"] if two else [])
+    dtext = "$" + cs.file_manager.get_named_file("ufile") + "[1*][ " + " ".join(f"@r_{n_} = $src.variables.{n_}" for n_ in names) + " ]"
+    try:
+        direct.config.csvpath_errors_policy = ["collect", "print"]
+        direct.fast_forward(dtext)
+        derr = [str(e.error)[:160] for e in (direct.errors or [])]
+    except Exception as e:  # noqa
+        derr = [f"{type(e).__name__}: {str(e)[:160]}"]
+    if derr:
+        w["errors"] = derr
+        w["csvpath"] = dtext
+        return "reference-through-csvpath()-fails", w
+    agg.count("references_checked", len(names))
+    for n_ in names:
+        if direct.variables.get(f"r_{n_}") != final.get(n_):
+            w.update({"variable": n_, "got": direct.variables.get(f"r_{n_}"), "most_recent_run_left": final.get(n_), "read_by": "cs.csvpath() after the runs"})
+            return "reference-value-stale:" + n_, w
+    gv = cs.results_manager.get_variables("src")
+    for n_ in names:
+        if gv.get(n_) != final.get(n_):
+            w.update({"variable": n_, "got": gv.get(n_), "most_recent_run_left": final.get(n_), "read_by": "results_manager.get_variables"})
+            return "get_variables-stale:" + n_, w
     c10._NOW["t"] = c10.advance(c10._NOW["t"], "+1s")
     with hooks.recording(agg) as rec:
         lines, exc = cps.run_method(cs, "fast_forward_paths", "user", "ufile")
